@@ -223,6 +223,8 @@ func propC02(c *ctx) error {
 	points := []struct{ name, tpl string }{
 		{"text", `<p :text="${s}">old</p>`},
 		{"text-mix", `<p :text="a ${s} b">old</p>`},
+		{"text-children", `<section :text="${s}"><b>old</b> child <i :text="${nope}">never</i></section>`},
+		{"text-mix-children", `<h2 :text="${s}${s}"><b>old</b></h2>`},
 		{"text-raw-element", `<textarea :text="${s}">old</textarea>`},
 		{"text-title", `<title :text="${s}">old</title>`},
 		{"attr", `<a :href="${s}" id=k>x</a>`},
@@ -299,6 +301,11 @@ func propC02(c *ctx) error {
 		if out.St != "ok" || out.text() != "<p>"+s+"</p>" {
 			res.violate(rc.toJ(), "<p>"+s+"</p>", out.text(), "the raw directive does not emit the value unmodified")
 		}
+		out, rc = render(`<h3 :raw="${fs()}"><b>old</b> child</h3>`, s)
+		res.S3Checked++
+		if out.St != "ok" || out.text() != "<h3>"+s+"</h3>" {
+			res.violate(rc.toJ(), "<h3>"+s+"</h3>", out.text(), "the raw directive does not replace the placeholder content by the unmodified value")
+		}
 		return nil
 	}
 	maxLen := 2
@@ -307,10 +314,9 @@ func propC02(c *ctx) error {
 	}
 	var rec func(prefix string, d int) error
 	rec = func(prefix string, d int) error {
-		if prefix != "" {
-			if err := check(prefix); err != nil {
-				return err
-			}
+		// the empty string included: an insertion that evaluates to "" still replaces the placeholder content
+		if err := check(prefix); err != nil {
+			return err
 		}
 		if d == 0 {
 			return nil
@@ -452,6 +458,10 @@ func markX(tpl, baseOut string) string {
 		return strings.Replace(baseOut, p[0], p[1], 1)
 	}
 	switch tpl {
+	case `<section :text="${s}"><b>old</b> child <i :text="${nope}">never</i></section>`:
+		return strings.Replace(baseOut, "<section>x</section>", "<section>\x00</section>", 1)
+	case `<h2 :text="${s}${s}"><b>old</b></h2>`:
+		return strings.Replace(baseOut, "<h2>xx</h2>", "<h2>\x00\x00</h2>", 1)
 	case `<div :with="w := ${s}"><b :text="${w}" :class="${w}">o</b></div>`:
 		return strings.Replace(baseOut, `<b class="x">x</b>`, "<b class=\"\x00\">\x00</b>", 1)
 	case `<ul><li :range="_, it : items" :text="${it}" :data-v="${it}">o</li></ul>`:
